@@ -159,6 +159,7 @@ type Session struct {
 	propID    string
 	famCounts map[string]int
 	outDir    string
+	loadDir   string // where the packages were loaded from: /repo itself, or the scratch copy holding code regenerated from the working tree
 }
 
 func (s *Session) verifyKey(key string, con *Contract) *Unit {
@@ -355,12 +356,18 @@ func runCheck(id, tier string, dev bool, filter string) int {
 	if len(cfg.Probes) > 0 {
 		scratch, infos, err := generateProbes(s.repo, cfg.Probes, tier)
 		if scratch != "" {
-			defer os.RemoveAll(scratch)
+			// scratch is <tmp>/gocvprobeNNN/repo: remove the whole probe directory (it also holds the generator binary)
+			if parent := filepath.Dir(scratch); strings.HasPrefix(filepath.Base(parent), "gocvprobe") {
+				defer os.RemoveAll(parent)
+			} else {
+				defer os.RemoveAll(scratch)
+			}
 		}
 		if err != nil {
 			return engineFail(id, "probe generation failed: %v", err)
 		}
 		loadDir = scratch
+		s.loadDir = scratch
 		probeInfo = infos
 		for _, pi := range infos {
 			patterns = append(patterns, pi.Patterns...)
